@@ -529,7 +529,7 @@ pub fn group_size(group: &str, thorough: bool) -> u64 {
         "mutate-response" => all_responses(true).iter().filter(|m| m.to_bytes().len() <= if thorough { 64 } else { 40 }).count() as u64,
         "lengths-request" => all_requests().len() as u64,
         "lengths-response" => all_responses(true).len() as u64,
-        "frame-limits" => 6,
+        "frame-limits" => 9,
         _ => 0,
     }
 }
@@ -684,7 +684,7 @@ pub fn run_chunk(c: &Chunk, thorough: bool) -> ChunkReport {
             }
         }
         "frame-limits" => {
-            for i in c.start..c.end.min(6) {
+            for i in c.start..c.end.min(9) {
                 rep.evaluations += 1;
                 rep.nontrivial += 1;
                 let r: Result<(), String> = (|| {
@@ -727,6 +727,38 @@ pub fn run_chunk(c: &Chunk, thorough: bool) -> ChunkReport {
                             let m = Response::Explain("p".repeat(tcp::MAX_MESSAGE_SIZE - 6));
                             roundtrip_response(&m)
                         }
+                        6 | 7 | 8 => {
+                            // a REFUSED send must leave the stream exactly as it was: messages sent before and after it on
+                            // the same writer arrive intact and in order (request direction, response direction, and with
+                            // the refused message first)
+                            let mut pipe = vec![];
+                            let too_big_req = Request::Sql("m".repeat(tcp::MAX_MESSAGE_SIZE));
+                            let too_big_resp = Response::Rows { columns: vec!["c".into()], data: vec![vec!["x".repeat(tcp::MAX_MESSAGE_SIZE)]] };
+                            if i != 8 {
+                                tcp::send_request(&mut pipe, &Request::Ping).map_err(|e| e.to_string())?;
+                            }
+                            let before = pipe.len();
+                            let refused = if i == 7 { tcp::send_response(&mut pipe, &too_big_resp).is_err() } else { tcp::send_request(&mut pipe, &too_big_req).is_err() };
+                            if !refused {
+                                return Err("an over-large message was not refused by the writer".into());
+                            }
+                            if pipe.len() != before {
+                                return Err(format!("a refused send wrote {} bytes into the stream", pipe.len() - before));
+                            }
+                            tcp::send_request(&mut pipe, &Request::Sql("after".into())).map_err(|e| e.to_string())?;
+                            let mut cur = Cursor::new(pipe);
+                            if i != 8 {
+                                let a = tcp::recv_request(&mut cur).map_err(|e| format!("message before the refused one: {e}"))?;
+                                if a != Request::Ping {
+                                    return Err("message before the refused one arrived changed".into());
+                                }
+                            }
+                            let b = tcp::recv_request(&mut cur).map_err(|e| format!("message after the refused one: {e}"))?;
+                            if b != Request::Sql("after".into()) {
+                                return Err("message after the refused one arrived changed".into());
+                            }
+                            Ok(())
+                        }
                         _ => {
                             // two frames back to back are read one after the other
                             let mut pipe = vec![];
@@ -746,7 +778,7 @@ pub fn run_chunk(c: &Chunk, thorough: bool) -> ChunkReport {
                     fail(&mut rep, format!("frame-limits case {i}: {e}"));
                 }
             }
-            rep.sample = "message of exactly MAX_MESSAGE_SIZE, one byte more (writer and reader), short frame, back-to-back frames".into();
+            rep.sample = "message of exactly MAX_MESSAGE_SIZE, one byte more (writer and reader), short frame, back-to-back frames, a refused send between two good ones".into();
         }
         _ => {}
     }
